@@ -5,7 +5,9 @@ import os
 from . import common as C
 
 CLAUSES = {
-    "C08": {"build", "declared", "coverage", "cov_contains", "lookup", "stream_sem", "stream"},
+    # (which compression an operation DECLARES is not prescribed -- delivered bytes are identified by decoding with whatever
+    #  is declared, so a wrong declaration shows as a lookup / stream failure; a mismatch with the model's Decl is an observation)
+    "C08": {"build", "coverage", "cov_contains", "lookup", "stream_sem", "stream"},
     # (C09 does not prescribe the advertised coverage of a filter, only C03's containment: an exact-formula mismatch is an
     #  observation, not a violation)
     "C09": {"build", "build_error", "cov_contains", "lookup", "stream_sem", "stream"},
@@ -56,6 +58,9 @@ def run_pipes(prop, tier, seed, replay, stages, rule, nontrivial, run=None, fini
     run.add_tlc(v)
     for (line, fl) in v.fails:
         for cl in fl["clauses"]:
+            if cl == "declared":
+                run.observation("declared_compression", {"vpl": fl["case"]["vpl"], "declared": fl["case"].get("declared")})
+                continue
             if cl == "coverage" and prop == "C09":
                 run.observation("coverage_formula", {"what": "the advertised coverage differs from source coverage /\\ filter box "
                                                      "(allowed by C09 / C03 as long as it contains every returned tile)", "vpl": fl["case"]["vpl"], "cov": fl["case"].get("cov")})
